@@ -327,6 +327,38 @@ func runC20(r *Run, stratum string) *Violation {
 		ss.skipKey = func(id string) bool { return pre[id] != nil }
 	}
 
+	// bidirectional replay by RESTORE: another client of the target (the application on that side, the opposite link)
+	// may create a snapshot key between the worker's EXISTS probe and the MULTI/EXEC that carries the RESTORE. The
+	// transaction then answers BUSYKEY for it, and the policy decides what that means.
+	var raced *preKey
+	if cfg.Bisync && cfg.Restore && len(ds.Keys) > 0 && g.Choose("racingclient", 2) == 0 {
+		seen := 0
+		snapByID := map[string]*rdbgen.Key{}
+		for _, k := range ds.Keys {
+			snapByID[fmt.Sprintf("%d/%s", cfg.mapDB(k.DB), k.Name)] = k
+		}
+		ss.onStep = func() bool {
+			for ; seen < len(ss.srv.Log) && raced == nil; seen++ {
+				e := ss.srv.Log[seen]
+				if e.Name != "exists" || e.IsErr || len(e.Args) != 1 {
+					continue
+				}
+				id := fmt.Sprintf("%d/%s", e.DB, e.Args[0])
+				k := snapByID[id]
+				if k == nil || pre[id] != nil || ss.srv.Get(e.DB, string(e.Args[0])) != nil || r.Sched().Choose("racenow", 2) != 0 {
+					continue
+				}
+				ov, how := oldValue(r.Sched(), k, o.NowMs)
+				ov.Origin = "racing client"
+				ss.srv.DBs[e.DB][string(k.Name)] = ov
+				raced = &preKey{id: id, db: e.DB, name: string(k.Name), how: "created by another client right after the tool's EXISTS probe; " + how, before: fullCanon(ov), expire: ov.ExpireAt, typ: ov.T, snap: k}
+				r.W.Fault("key_created_between_probe_and_transaction")
+				r.Logf("RACE: another client creates %s (%s)", id, how)
+			}
+			return false
+		}
+	}
+
 	restore := ss.start()
 	defer restore()
 	finished := ss.run()
@@ -336,6 +368,29 @@ func runC20(r *Run, stratum string) *Violation {
 	if !finished {
 		ss.shutdown()
 		Inconc("step cap reached before the snapshot replay ended")
+	}
+	if raced != nil {
+		// judged only if the tool then really sent a RESTORE for that key (a value it expands into native commands
+		// inside the transaction is merged into whatever is there - no reply tells the tool about the newcomer)
+		viaRestore := false
+		for _, e := range ss.srv.Log {
+			if e.Name == "restore" && e.DB == raced.db && len(e.Args) > 0 && string(e.Args[0]) == raced.name {
+				viaRestore = true
+			}
+		}
+		if viaRestore {
+			pre[raced.id] = raced
+			preList = append(preList, raced)
+			desc = append(desc, fmt.Sprintf("%s (%s)", raced.id, raced.how))
+			nSnapPre++
+			simrt.Probe("c20_race_judged")
+		} else {
+			// the value went out as native commands: whatever happens to the newcomer (merged, WRONGTYPE) is the
+			// unavoidable outcome of a probe that is not part of the transaction; nothing is judged in this run
+			simrt.Probe("c20_race_not_judged")
+			ss.shutdown()
+			return nil
+		}
 	}
 	// everything the tool has already written to its connections is executed by a real server
 	ss.drainPending(10000)
@@ -438,6 +493,12 @@ func runC20(r *Run, stratum string) *Violation {
 		if err != nil {
 			simrt.Probe("error-policy-stopped")
 		}
+	case err != nil && policy == "ignore" && raced != nil && strings.Contains(err.Error(), "BUSYKEY"):
+		// the key appeared between the probe and the transaction: the RESTORE inside EXEC answered BUSYKEY and the
+		// transaction batcher reports any error element of an EXEC reply as an error. Stopping is as faithful to
+		// "ignore" as carrying on, provided the newcomer is untouched (the next attempt finds it by its probe).
+		simrt.Probe("c20_race_ignore_stopped_with_busykey")
+		v = untouched(raced, "ignore")
 	case err != nil && policy == "ignore" && firstErrOnPre() != "":
 		v = ss.violation("C20.ignore_failed", "ignore policy: the replay failed on a write the target refused for a pre-existing key",
 			"policy ignore: Send returned %v; the target had answered an error to a write on a pre-existing key: %s", strings.SplitN(err.Error(), "\n", 2)[0], firstErrOnPre())
